@@ -41,10 +41,16 @@ class PathResolver:
             Path relative to project root, or original path if outside project
         """
         try:
-            if file_path.is_absolute():
+            if file_path.is_absolute() and ".." not in file_path.parts:
                 return file_path.relative_to(self.project_root)
-            return file_path
         except ValueError:
+            pass
+        # Relative (or non-normalised) spelling: locate the file first, so that
+        # `web.ts` from inside src/, `proj/src/web.ts` from the parent directory and
+        # `src/../src/web.ts` are all judged as `src/web.ts`.
+        try:
+            return file_path.resolve().relative_to(self.project_root.resolve())
+        except (ValueError, OSError):
             # If path is outside project root, return it as-is
             # This allows detection of absolute paths in global_deny patterns
             return file_path
